@@ -348,6 +348,17 @@ def r2_identity(prog, rep: Report, lf: ListFacts):
             if not isinstance(n, ast.Compare):
                 continue
             operands = [n.left] + list(n.comparators)
+            # membership in a literal tuple/list of nodes compares by == as well
+            if len(n.ops) == 1 and isinstance(n.ops[0], (ast.In, ast.NotIn)) and isinstance(n.comparators[0], (ast.Tuple, ast.List)) \
+                    and _node_typed(n.left, f, lf, nl, prog) and any(_node_typed(x, f, lf, nl, prog) for x in n.comparators[0].elts):
+                sites += 1
+                rep.fn(f)
+                rep.check("C08.R2", f, f"compare:{src(n.left)}~in-literal", not value_eq, "node class has no value __eq__",
+                          f"`{src(n)}` tests membership of a node in a literal of nodes: `in` compares by value (the generated "
+                          f"dataclass __eq__), recursing along the links",
+                          scenario="a long run of equal payloads: RecursionError; a payload whose __eq__ raises makes the operation fail",
+                          line=n.lineno)
+                continue
             for i, op in enumerate(n.ops):
                 a, b = operands[i], operands[i + 1]
                 if not (_node_typed(a, f, lf, nl, prog) and _node_typed(b, f, lf, nl, prog)):
